@@ -7,6 +7,7 @@ from typing import Dict, List, Optional, Tuple
 from .. import anchors as A
 from ..flow import ANY_EXC
 from ..model import AnalysisError, ClassInfo, FuncInfo, Project, call_name, kwarg, walk_local
+from ..roles import incoming_send_calls, stream_roles
 from ..paths import PState, PathAnalysis, calls_in_order, is_benign_call
 
 
@@ -31,7 +32,7 @@ def writer(P: Project) -> Tuple[FuncInfo, ast.AsyncFor]:
     found = []
     for f in P.methods(client(P)).values():
         for n in walk_local(f.node):
-            if isinstance(n, (ast.AsyncFor, ast.For)) and "_outgoing_recv" in ast.unparse(n.iter):
+            if isinstance(n, (ast.AsyncFor, ast.For)) and ("self." + stream_roles(P, client(P))["outgoing_recv"]) in ast.unparse(n.iter):
                 found.append((f, n))
     if len(found) != 1:
         raise AnalysisError(f"anchor: expected one loop over the outgoing stream, found {len(found)}")
@@ -41,7 +42,7 @@ def writer(P: Project) -> Tuple[FuncInfo, ast.AsyncFor]:
 def router(P: Project) -> FuncInfo:
     c = []
     for f in P.methods(client(P)).values():
-        if any(isinstance(x, ast.Call) and call_name(x) in ("self._incoming_send.send", "self._incoming_send.send_nowait") for x in walk_local(f.node)):
+        if any(isinstance(x, ast.Call) and call_name(x) in incoming_send_calls(P, client(P)) for x in walk_local(f.node)):
             c.append(f)
     if len(c) != 1:
         raise AnalysisError(f"anchor: expected one method sending on the incoming stream, found {len(c)}")
